@@ -884,6 +884,21 @@ def gen_delay_case(rng):
             "tags": ["parse_delay:" + t["cls"]], "nontrivial": bool(t["ws"]) or "." in t["num"] or "e" in t["num"].lower()}
 
 
+def gen_regex_case(rng):
+    """strings around the Nml2Quantity_time pattern: real regex (as generateDS applies it) vs the Lean recogniser"""
+    r = rng.random()
+    if r < 0.45:
+        t = gen_time_spelling(rng)["s"]
+        if rng.random() < 0.4:                                 # one edit
+            i = rng.randint(0, len(t))
+            t = t[:i] + rng.choice(["", "-", ".", "e", "E", "0", " ", "s", "m", "+", "\t"]) + t[i + (rng.random() < 0.5):]
+    elif r < 0.9:
+        t = "".join(rng.choice("--..eE0123456789  \t\nsmsm") for _ in range(rng.randint(0, 9)))
+    else:
+        t = str(gen_bad_delay(rng))
+    return {"kind": "match_time", "s": t, "tags": ["regex"], "nontrivial": len(t) >= 3}
+
+
 def gen_hsfi_case(rng):
     k = rng.choice([0, 1, 1, 2, 3, 5])
     conns, any_info = [], False
@@ -1196,6 +1211,8 @@ def model_lines(case):
         return [json.dumps({"op": "summary", "nets": nets})]
     if k == "spec":
         return [json.dumps(dict(case["args"], op="spec"))]
+    if k == "match_time":
+        return [json.dumps({"op": "match_time", "s": case["s"]})]
     raise ValueError(k)
 
 
@@ -1301,6 +1318,20 @@ def check_case(ctx, case, mout, tmpdir=None):
                         ctx.fail("C19:summary:%s%s" % (TOTAL_NAMES[i], ":reread" if which == "reread" else ""),
                                  "summary() reports %d %s, the document has %d" % (g[i], TOTAL_NAMES[i], w[i]),
                                  {"case": case, "which": which, "reported": g, "counted": w})
+    elif k == "match_time":
+        ctx.corr_evals += 1
+        trx, _ = time_regex()
+        mo = trx.search(case["s"])
+        real = {"match": mo is not None and len(mo.group(0)) == len(case["s"])}      # as gds_validate_simple_patterns does
+        ctx.count("regex:match" if real["match"] else "regex:nomatch")
+        if real["match"]:
+            body = case["s"][:-2] if case["s"].endswith("ms") else case["s"][:-1]
+            real["num"] = body.rstrip()
+            model = mout[0]
+        else:
+            model = {"match": mout[0].get("match")}
+        if real != model:
+            ctx.disagree("time-pattern", case["s"], real, mout[0])
     elif k == "spec":
         ctx.corr_evals += 1
         if mout[0] != case["want"]:
@@ -1394,7 +1425,16 @@ def run_cases(ctx, cases):
             shutil.rmtree(tmp, ignore_errors=True)
 
 
+_RX = []
+
+
 def time_regex():
+    if not _RX:
+        _RX.append(_time_regex())
+    return _RX[0]
+
+
+def _time_regex():
     try:
         import neuroml.nml.nml as nml
         return re.compile(nml.ConnectionWD.validate_Nml2Quantity_time_patterns_[0][0]), \
@@ -1418,6 +1458,8 @@ def run(ctx):
         cases.append(gen_delay_case(rng))
     for _ in range(ctx.n(400, 3000) * mult):
         cases.append(gen_hsfi_case(rng))
+    for _ in range(ctx.n(1500, 15000) * mult):
+        cases.append(gen_regex_case(rng))
     for _ in range(ctx.n(400, 3000) * mult):
         cases.append(gen_doc_case(rng, big=(ctx.tier == "thorough")))
     # the generated references / spellings are inside the schema patterns and inside the theorems' vocabulary
